@@ -120,6 +120,13 @@ pub fn check(env: &Env, f: &F) -> Vec<String> {
 }
 
 pub fn replay(case: &Value) -> Option<String> {
+    if case["kind"] == "sanitize_history" {
+        let first: crate::nets::NetSpec = serde_json::from_value(case["first"].clone()).ok()?;
+        let a = Bound::new("first", &first, 1).ok()?;
+        for w in case["warm"].as_array()? {
+            let _ = guarded(AssertUnwindSafe(|| biodivine_hctl_model_checker::model_checking::model_check_formula(w.as_str().unwrap_or("a"), &a.graph)));
+        }
+    }
     let spec = serde_json::from_value(case["net"].clone()).ok()?;
     let b = Bound::new("replay", &spec, 0).ok()?;
     let keep: Option<Vec<usize>> = case.get("keep").and_then(|k| serde_json::from_value(k.clone()).ok());
@@ -247,7 +254,69 @@ pub fn run(tier: &str) -> Result<Report, String> {
         rep.set("multi_formula_lists", json!(lists.len()));
         rep.violations.extend(bad.into_iter().take(20));
     }
+    // histories: networks with the same variable names and the same explicit parameter (one unary symbol f)
+    // but f attached to another variable / other functions; every ordered pair on one fresh OS thread:
+    // sanitising calls on the first network, then the full C15 obligations on the second
+    {
+        let texts = [
+            "c -?? a; a -?? b; b -?? c; $a: f(c); $b: a; $c: b",
+            "c -?? a; a -?? b; b -?? c; $a: c; $b: f(a); $c: b",
+            "c -?? a; a -?? b; b -?? c; $a: c; $b: a; $c: f(b)",
+            "c -?? a; a -?? b; b -?? c; $a: !c; $b: f(a); $c: b",
+            "c -?? a; a -?? b; b -?? c; $a: c; $b: !a; $c: f(b)",
+        ];
+        let mut hn: Vec<Arc<Bound>> = vec![];
+        for (i, t) in texts.iter().enumerate() {
+            hn.push(Arc::new(bind(&format!("sig{i}"), &crate::nets::spec(t), 0)?));
+        }
+        let ftexts = ["a", "c", "a & ~c", "!{x}: AX {x}", "!{x}: EX ~{x}", "3{x}: @{x}: (c & EX ~c)", "!{x}: 3{y}: (@{y}: a & EF {x})"];
+        let warm = ["a", "!{x}: AX {x}", "EF c", "3{x}: @{x}: AX {x}"];
+        let mut pairs = vec![];
+        for i in 0..hn.len() {
+            for j in 0..hn.len() {
+                if i != j && (tier != "quick" || (i + j) % 2 == 1) {
+                    pairs.push((hn[i].clone(), hn[j].clone()));
+                }
+            }
+        }
+        let n_pairs = pairs.len();
+        let bad: Vec<Violation> = pairs
+            .into_par_iter()
+            .filter_map(|(a, b)| {
+                std::thread::spawn(move || {
+                    let ga = a.graph_with_k(1);
+                    for w in warm {
+                        let _ = guarded(AssertUnwindSafe(|| biodivine_hctl_model_checker::model_checking::model_check_formula(w, &ga)));
+                    }
+                    let env = match Env::new(&b) {
+                        Ok(e) => e,
+                        Err(_) => return None,
+                    };
+                    for t in ftexts {
+                        let f = crate::formulas::f(t, &env.ctxs[0].user);
+                        let bad = check(&env, &f);
+                        if !bad.is_empty() {
+                            return Some(Violation {
+                                case: json!({"kind": "sanitize_history", "first": a.spec, "net": b.spec, "aeon": b.aeon, "formula": f, "warm": warm}),
+                                what: format!("after sanitising calls on [{}] on the same thread, formula {t} on [{}]: {}", a.aeon.replace('\n', "; "), b.aeon.replace('\n', "; "), bad.join(" | ")),
+                                size: f.size(),
+                            });
+                        }
+                    }
+                    None
+                })
+                .join()
+                .unwrap_or_else(|_| Some(Violation { case: json!({"kind": "machinery"}), what: "MACHINERY: history thread panicked".into(), size: 0 }))
+            })
+            .collect();
+        if bad.iter().any(|v| v.what.starts_with("MACHINERY")) {
+            return Err("a two-network history thread of the harness panicked".into());
+        }
+        rep.evaluations += (n_pairs * ftexts.len() * 6) as u64;
+        rep.add_count("two_network_histories", n_pairs as u64);
+        rep.violations.extend(bad.into_iter().take(20));
+    }
     rep.sample(json!({"network": "con2", "formula": "(!{x}: (3{y}: ((@{x}: (AX {y})) & (EF {x}))))", "k": [2, 3, 5], "check": "model_check_formula == model_check_formula_dirty point-wise; BDD over the variables of SymbolicContext::new; identical for all k; usable with SymbolicAsyncGraph::new"}));
-    rep.rule = format!("every closed plain formula with <= {m} nodes and every plain template formula on {which:?}, on graphs with k = d, d+1, d+3 spare variable sets (d = quantifier nesting depth): sanitised result == raw result on every state x valid colour == explicit-state oracle; expressed over exactly the variables of SymbolicContext::new(network); subset of and usable with SymbolicAsyncGraph::new(network); BDD-identical for all k; every multi-colour network additionally with the unit set of the graph restricted (SymbolicAsyncGraph::restrict) to every second valid colour, where raw and sanitised results must also stay inside the restricted unit set; and every ordered pair and triple over a pool of 8 formulae of different heights through model_check_multiple_formulae vs model_check_multiple_formulae_dirty, position by position. distinct_nontrivial = number of (formula, network) pairs");
+    rep.rule = format!("every closed plain formula with <= {m} nodes and every plain template formula on {which:?}, on graphs with k = d, d+1, d+3 spare variable sets (d = quantifier nesting depth): sanitised result == raw result on every state x valid colour == explicit-state oracle; expressed over exactly the variables of SymbolicContext::new(network); subset of and usable with SymbolicAsyncGraph::new(network); BDD-identical for all k; every multi-colour network additionally with the unit set of the graph restricted (SymbolicAsyncGraph::restrict) to every second valid colour, where raw and sanitised results must also stay inside the restricted unit set; and every ordered pair and triple over a pool of 8 formulae of different heights through model_check_multiple_formulae vs model_check_multiple_formulae_dirty, position by position; plus two-network histories (ordered pairs of 5 networks with identical variable names and parameter signature, sanitising calls on the first, then all obligations for 7 formulae on the second, on one fresh OS thread). distinct_nontrivial = number of (formula, network) pairs");
     Ok(rep)
 }
